@@ -656,7 +656,33 @@ def gen_op(rng, cfg, opt, model, obs, compiled_once, force=None):
         v = v + [1.0]
     elif r < 0.14 and v:
         v = v[:-1]
-    return ['update_model', v]
+    # how the vector is handed over (chosen from the drawn numbers themselves, so that no further random draw is used):
+    # a list of Python floats, whole numbers as Python ints (all of them / only some), a tuple, a float64 array
+    form = VECTOR_FORMS[int(abs(v[0]) * 7919) % len(VECTOR_FORMS)] if v and math.isfinite(v[0]) else 'floats'
+    if form in ('ints', 'tuple-of-ints'):
+        v = [float(round(x)) for x in v]
+    elif form == 'ints-and-floats':
+        v = [float(round(x)) if i % 2 == 0 else x for i, x in enumerate(v)]
+    return ['update_model', v] if form == 'floats' else ['update_model', v, form]
+
+
+VECTOR_FORMS = ['floats', 'ints', 'floats', 'float64-array', 'floats', 'tuple-of-ints', 'floats', 'ints-and-floats', 'floats',
+                'tuple']
+
+
+def vector_as(v, form):
+    """the parameter vector `v` (floats) as the caller hands it to update_model"""
+    if form in ('ints', 'tuple-of-ints'):
+        w = [int(x) for x in v]
+        assert [float(x) for x in w] == [float(x) for x in v]
+        return w if form == 'ints' else tuple(w)
+    if form == 'ints-and-floats':
+        return [int(x) if float(x) == int(x) and i % 2 == 0 else float(x) for i, x in enumerate(v)]
+    if form == 'float64-array':
+        return np.array(v, dtype=np.float64)
+    if form == 'tuple':
+        return tuple(float(x) for x in v)
+    return list(v)
 
 
 # ----------------------------------------------------------------------------- execution on the real code
@@ -667,7 +693,7 @@ def apply_real(opt, op, priors_made):
         if k == 'compile':
             opt.compile_params()
         elif k == 'update_model':
-            opt.update_model(list(op[1]))
+            opt.update_model(vector_as(op[1], op[2] if len(op) > 2 else 'floats'))
         elif k == 'set_prior':
             opt.set_prior(op[1], priors_made[id(op)])
         elif k in ('set_boundary', 'set_factor_boundary'):
@@ -859,6 +885,9 @@ def run_sequence(ctx, case, gen=None):
             user[ex[1]] = priors_made[id(ex)]
         if k == 'update_model':
             nfit = len(opt.fitting_parameters)
+            ctx.bucket('update_model:vector-given-as:' + (ex[2] if len(ex) > 2 else 'floats') +
+                       (':with-negative-entry-for-a-log-space-prior' if len(ex[1]) == nfit and any(
+                           v < 0 and p.priorMode is PriorMode.LOG for v, p in zip(ex[1], opt.fitting_priors)) else ''))
             if len(ex[1]) != nfit:
                 if out != 2 or settings_a != settings_b:
                     ctx.violation('update-length', 'update_model with a vector of the wrong length must raise ValueError and '
